@@ -1,6 +1,7 @@
 package props
 
 import (
+	"github.com/robfig/soy/soyjs"
 	"bytes"
 	"errors"
 	"fmt"
@@ -203,6 +204,38 @@ func checkC12(c gen.ProgCase) Verdict {
 		renders++
 		if err := check(&faultWriter{failCall: -1, capacity: B, sticky: true}, "writer with exactly enough capacity"); err != nil {
 			return bad(true, "%v\n%s", err, showSources(names, srcs))
+		}
+	}
+	// the library's other function that takes a writer: the JavaScript of a file is written to it, and
+	// "the first error encountered is returned" (for part of the cases: ES5 and ES6, every write call)
+	if hashCase(c)%4 == 1 {
+		for _, f := range cb.reg.SoyFiles {
+			for fi, formatter := range []soyjs.JSFormatter{&soyjs.ES5Formatter{}, &soyjs.ES6Formatter{}} {
+				full := &faultWriter{failCall: -1, capacity: -1}
+				if werr := soyjs.Write(full, f, soyjs.Options{Formatter: formatter}); werr != nil {
+					continue // (no translation: not this property's matter)
+				}
+				for k := 0; k < full.calls; k++ {
+					w := &faultWriter{failCall: k, capacity: -1, sticky: k%2 == 0}
+					var werr error
+					if p := catch(func() { werr = soyjs.Write(w, f, soyjs.Options{Formatter: formatter}) }); p != nil {
+						return bad(true, "soyjs.Write panicked when write call %d failed: %v\n%s", k, p, showSources(names, srcs))
+					}
+					acc := w.accepted.Bytes()
+					if !w.sticky {
+						acc = acc[:w.beforeFail]
+					}
+					if werr == nil {
+						return bad(true, "soyjs.Write of %s (formatter %d): write call %d of %d failed but Write returned nil (the writer holds %d of %d bytes)\n%s", f.Name, fi, k, full.calls, w.accepted.Len(), full.accepted.Len(), showSources(names, srcs))
+					}
+					if !bytes.HasPrefix(full.accepted.Bytes(), acc) {
+						return bad(true, "soyjs.Write of %s (formatter %d): after write call %d failed the writer holds text that is not a prefix of the script", f.Name, fi, k)
+					}
+				}
+				if c12rec != nil {
+					c12rec.add("js_generation_fault_runs", full.calls)
+				}
+			}
 		}
 	}
 	if c12rec != nil {
